@@ -8,12 +8,14 @@ package main
 // its subnets, against the same brute-force longest-prefix oracle.
 
 import (
+	"bytes"
 	"fmt"
 	"os"
 	"strings"
 	"sync/atomic"
 
 	"github.com/facebookincubator/dns/dnsrocks/db"
+	"github.com/facebookincubator/dns/dnsrocks/dnsdata"
 
 	"verifharness/dnsfix"
 	"verifharness/vlib"
@@ -88,11 +90,36 @@ type largeResult struct {
 	panic string
 }
 
-var storesLarge = []storeCfg{
-	{"cdb-combined", dnsfix.CDB, false},
-	{"cdb-perfamily", dnsfix.CDB, true},
-	{"rdb-v1", dnsfix.RDBv1, false},
-	{"rdb-v2", dnsfix.RDBv2, false},
+// largeStore: a store configuration, optionally behind the preprocessor (the
+// production pipeline: dnsrocks-preproc turns the '%' lines into range-point
+// lines through SubnetRanger.OpenScanner, and the RocksDB compiler compiles those;
+// without it rdb.Compile derives the points itself through Accum.MarshalMap).
+type largeStore struct {
+	storeCfg
+	preproc bool
+}
+
+var storesLarge = []largeStore{
+	{storeCfg{"cdb-combined", dnsfix.CDB, false}, false},
+	{storeCfg{"cdb-perfamily", dnsfix.CDB, true}, false},
+	{storeCfg{"rdb-v1", dnsfix.RDBv1, false}, false},
+	{storeCfg{"rdb-v2", dnsfix.RDBv2, false}, false},
+	{storeCfg{"rdb-v1-preproc", dnsfix.RDBv1, false}, true},
+	{storeCfg{"rdb-v2-preproc", dnsfix.RDBv2, false}, true},
+}
+
+// preprocessText runs the data file through the preprocessor configured as
+// cmd/dnsrocks-preproc configures it.
+func preprocessText(text []byte) ([]byte, error) {
+	codec := new(dnsdata.Codec)
+	codec.Acc.Ranger.Enable()
+	codec.Acc.NoPrefixSets = true
+	codec.NoRnetOutput = true
+	var out bytes.Buffer
+	if err := codec.Preprocess(bytes.NewReader(text), &out); err != nil {
+		return nil, err
+	}
+	return out.Bytes(), nil
 }
 
 // runLarge compiles every large map to every store (one store configuration at a
@@ -118,8 +145,14 @@ func (b *levelB) runLarge(r *vlib.Run, dir string) {
 			if results[mi].panic != "" {
 				return
 			}
-			text := mapHeader + setLines(m.set, "m1")
-			path, err := dnsfix.Compile(dir, st.backend, []byte(text))
+			text := []byte(mapHeader + setLines(m.set, "m1"))
+			if st.preproc {
+				var err error
+				if text, err = preprocessText(text); err != nil {
+					vlib.Infra("level B large: preprocessing map %s failed: %v", m.name, err)
+				}
+			}
+			path, err := dnsfix.Compile(dir, st.backend, text)
 			if err != nil {
 				vlib.Infra("level B large: compile %s of map %s failed: %v", st.name, m.name, err)
 			}
